@@ -238,6 +238,38 @@ func batchWL(x *mon.Ctx) {
 					c.CheckGuards("Encrypt/DecryptBlocks", g1, g2)
 					c.Event("batch_interface_calls", 2)
 				}
+				// A slice of exactly two batches: the interface does not say whether the second batch is processed
+				// (the amd64 assembly does process it). Either answer is accepted, a wrong block is not: every block of
+				// the second batch must be the reference value or untouched.
+				if cb, ok := blk.(concurrent); ok && 2*cb.Concurrency() == n {
+					two := func(what string, f func(dst, src []byte), in, exp []byte) {
+						src := g1.Put(in, hi)
+						dst := src
+						if alias == "disjoint" {
+							dst = g2.Side(len(in), hi)
+							for i := range dst {
+								dst[i] = 0x5a
+							}
+						}
+						before := append([]byte{}, dst...)
+						if !c.Call(what, func() { f(dst, src) }) {
+							return
+						}
+						half := len(in) / 2
+						for i := 0; i < n; i++ {
+							got, want := dst[16*i:16*i+16], exp[16*i:16*i+16]
+							if bytes.Equal(got, want) || (16*i >= half && bytes.Equal(got, before[16*i:16*i+16])) {
+								continue
+							}
+							c.Fail("mismatch", "%s with two batches (%d blocks): block %d got %x want %x (or untouched %x)", what, n, i, got, want, before[16*i:16*i+16])
+							break
+						}
+						c.CheckGuards(what, g1, g2)
+						c.Event("double_batch_calls", 1)
+					}
+					two("EncryptBlocks", cb.EncryptBlocks, pt, want)
+					two("DecryptBlocks", cb.DecryptBlocks, want, pt)
+				}
 				c.End()
 			}
 		}
